@@ -12,7 +12,15 @@
 //!   lib=<pv>  gr=<name>:<n>+<n>;...  k=<first>:<second>/<bits>+...;...  fe=<hex>
 //!   L=<layer>|<layer>          <name>/<colour b.b.b.b|~>/<pv>/<glyph>+<glyph>   glyph = <name>:<seed>
 //!   d=<path>:<bytes>;...  i=<path>:<bytes>;...
-//! observation tokens: pre=<dir>:<file>+..|..  save= load= files= mw= nw= uw= kw= lc= fw= cw=
+//!   h=<op>;<op>;...            (optional) the BUILD HISTORY of the layers: the container calls that lead to `L=`,
+//!                              successful and REFUSED ones interleaved; every op ends in the outcome the documented
+//!                              behaviour gives (ok | err:<Variant> | some | none):
+//!                                nl,<name>,<exp>  rl,<old>,<new>,<ow>,<exp>  xl,<name>,<exp>   (LayerContents)
+//!                                ig,<layer>,<name>,<seed>,<exp>  rg,<layer>,<old>,<new>,<ow>,<exp>  xg,<layer>,<name>,<exp>
+//!                                di,<path>,<bytes>,<exp>  ii,<path>,<bytes>,<exp>              (stores, after d= / i=)
+//!                              `L=` is then the state the containers must REPORT after the history
+//! observation tokens: pre=<dir>:<file>+..|..  rep=<layer>:<len()>:<names of iter()>|..  hr=<outcome>;..
+//!   save= load= files= mw= nw= uw= kw= lc= fw= cw=
 //!   then the loaded font in the input syntax (m= fi= n= u= g= lib= gr= k= fe= L= d= i=), post=, cmp=
 //! plist values (pv): comma-separated prefix stream: s<hex> i<int> r<bits> b0|b1 x<hex> t<hex> a<n>,.. d<n>,<key>,<pv>,..
 use crate::common::*;
@@ -149,6 +157,52 @@ pub struct Spec {
     pub layers: Vec<LayerSpec>,
     pub data: Vec<(String, Vec<u8>)>,
     pub images: Vec<(String, Vec<u8>)>,
+    /// build history of the layers (empty: the layers are built straight from `layers`)
+    pub hist: Vec<(Op, String)>,
+}
+
+/// one call of the container API; layers and glyphs are addressed by the names they have AT THAT MOMENT
+#[derive(Clone, Debug, PartialEq)]
+pub enum Op {
+    NewLayer(String),
+    RenameLayer(String, String, bool),
+    RemoveLayer(String),
+    Insert(String, String, String),
+    RenameGlyph(String, String, String, bool),
+    RemoveGlyph(String, String),
+    Data(String, Vec<u8>),
+    Image(String, Vec<u8>),
+}
+
+fn op_token(op: &Op, exp: &str) -> String {
+    let b = |x: &bool| if *x { "1" } else { "0" };
+    match op {
+        Op::NewLayer(n) => format!("nl,{},{}", hexs(n), exp),
+        Op::RenameLayer(a, n, ow) => format!("rl,{},{},{},{}", hexs(a), hexs(n), b(ow), exp),
+        Op::RemoveLayer(n) => format!("xl,{},{}", hexs(n), exp),
+        Op::Insert(l, n, tok) => format!("ig,{},{},{},{}", hexs(l), hexs(n), tok, exp),
+        Op::RenameGlyph(l, a, n, ow) => format!("rg,{},{},{},{},{}", hexs(l), hexs(a), hexs(n), b(ow), exp),
+        Op::RemoveGlyph(l, n) => format!("xg,{},{},{}", hexs(l), hexs(n), exp),
+        Op::Data(p, by) => format!("di,{},{},{}", hexs(p), hex(by), exp),
+        Op::Image(p, by) => format!("ii,{},{},{}", hexs(p), hex(by), exp),
+    }
+}
+
+fn op_parse(t: &str) -> (Op, String) {
+    let f: Vec<&str> = t.split(',').collect();
+    let u = |i: usize| unhexs(f[i]);
+    let op = match f[0] {
+        "nl" => Op::NewLayer(u(1)),
+        "rl" => Op::RenameLayer(u(1), u(2), f[3] == "1"),
+        "xl" => Op::RemoveLayer(u(1)),
+        "ig" => Op::Insert(u(1), u(2), f[3].to_string()),
+        "rg" => Op::RenameGlyph(u(1), u(2), u(3), f[4] == "1"),
+        "xg" => Op::RemoveGlyph(u(1), u(2)),
+        "di" => Op::Data(u(1), unhex(f[2])),
+        "ii" => Op::Image(u(1), unhex(f[2])),
+        x => panic!("unknown history op {}", x),
+    };
+    (op, f[f.len() - 1].to_string())
 }
 
 fn opt_hex(s: &Option<String>) -> String {
@@ -231,6 +285,9 @@ pub fn font_tokens(s: &Spec) -> Vec<String> {
 pub fn input_tokens(s: &Spec) -> Vec<String> {
     let mut t = vec![format!("o={}.{}.{}", s.opts.0, s.opts.1, s.opts.2)];
     t.push(format!("t={}", if s.target.is_empty() { "absent" } else { &s.target }));
+    if !s.hist.is_empty() {
+        t.push(format!("h={}", s.hist.iter().map(|(op, e)| op_token(op, e)).collect::<Vec<_>>().join(";")));
+    }
     t.extend(font_tokens(s));
     t
 }
@@ -265,6 +322,7 @@ pub fn parse_spec(toks: &[&str]) -> Spec {
         let (k, v) = t.split_once('=').unwrap();
         match k {
             "t" => s.target = v.to_string(),
+            "h" => s.hist = split_ne(v, ';').iter().map(|o| op_parse(o)).collect(),
             "o" => {
                 let p: Vec<&str> = v.split('.').collect();
                 s.opts = (p[0].chars().next().unwrap(), p[1].parse().unwrap(), p[2].chars().next().unwrap());
@@ -980,6 +1038,45 @@ pub fn prepare_target(dst: &Path, kind: &str) {
 }
 
 pub fn build(s: &Spec) -> Font {
+    build_h(s).0
+}
+
+fn outcome<T, E: std::fmt::Debug>(r: Result<T, E>) -> String {
+    match r {
+        Ok(_) => "ok".to_string(),
+        Err(e) => format!("err:{}", variant(&format!("{:?}", e))),
+    }
+}
+
+/// one call of the history on the real containers; the outcome as the API reports it
+pub fn apply_op(font: &mut Font, op: &Op) -> String {
+    let some = |b: bool| if b { "some".to_string() } else { "none".to_string() };
+    match op {
+        Op::NewLayer(n) => outcome(font.layers.new_layer(n)),
+        Op::RenameLayer(a, n, ow) => outcome(font.layers.rename_layer(a, n, *ow)),
+        Op::RemoveLayer(n) => some(font.layers.remove(n).is_some()),
+        Op::Insert(l, n, tok) => match font.layers.get_mut(l) {
+            Some(layer) => {
+                layer.insert_glyph(mk_glyph(n, tok));
+                "ok".to_string()
+            }
+            None => "nolayer".to_string(),
+        },
+        Op::RenameGlyph(l, a, n, ow) => match font.layers.get_mut(l) {
+            Some(layer) => outcome(layer.rename_glyph(a, n, *ow)),
+            None => "nolayer".to_string(),
+        },
+        Op::RemoveGlyph(l, n) => match font.layers.get_mut(l) {
+            Some(layer) => some(layer.remove_glyph(n).is_some()),
+            None => "nolayer".to_string(),
+        },
+        Op::Data(p, b) => outcome(font.data.insert(PathBuf::from(p), b.clone())),
+        Op::Image(p, b) => outcome(font.images.insert(PathBuf::from(p), b.clone())),
+    }
+}
+
+/// the font and, when the description carries a build history, the outcome of every call of it
+pub fn build_h(s: &Spec) -> (Font, Vec<String>) {
     let mut font = Font::new();
     font.meta.creator = s.creator.clone();
     font.meta.format_version_minor = s.minor;
@@ -1026,22 +1123,24 @@ pub fn build(s: &Spec) -> Font {
         font.kerning.insert(Name::new(a).unwrap(), inner);
     }
     font.features = s.features.clone();
-    for (i, l) in s.layers.iter().enumerate() {
-        if i == 0 {
-            if l.name != "public.default" {
-                font.layers.rename_layer("public.default", &l.name, false).unwrap();
+    if s.hist.is_empty() {
+        for (i, l) in s.layers.iter().enumerate() {
+            if i == 0 {
+                if l.name != "public.default" {
+                    font.layers.rename_layer("public.default", &l.name, false).unwrap();
+                }
+            } else {
+                font.layers.new_layer(&l.name).unwrap();
             }
-        } else {
-            font.layers.new_layer(&l.name).unwrap();
-        }
-        let layer = font.layers.get_mut(&l.name).unwrap();
-        layer.color = l.color.map(|c| {
-            Color::new(f64::from_bits(c[0]), f64::from_bits(c[1]), f64::from_bits(c[2]), f64::from_bits(c[3]))
-                .unwrap()
-        });
-        layer.lib = l.lib.clone();
-        for (n, tok) in &l.glyphs {
-            layer.insert_glyph(mk_glyph(n, tok));
+            let layer = font.layers.get_mut(&l.name).unwrap();
+            layer.color = l.color.map(|c| {
+                Color::new(f64::from_bits(c[0]), f64::from_bits(c[1]), f64::from_bits(c[2]), f64::from_bits(c[3]))
+                    .unwrap()
+            });
+            layer.lib = l.lib.clone();
+            for (n, tok) in &l.glyphs {
+                layer.insert_glyph(mk_glyph(n, tok));
+            }
         }
     }
     for (p, b) in &s.data {
@@ -1050,7 +1149,39 @@ pub fn build(s: &Spec) -> Font {
     for (p, b) in &s.images {
         font.images.insert(PathBuf::from(p), b.clone()).unwrap();
     }
-    font
+    // the history runs on the real containers; colour and lib of the layers it leaves are set afterwards
+    let mut results = Vec::new();
+    if !s.hist.is_empty() {
+        for (op, _) in &s.hist {
+            results.push(apply_op(&mut font, op));
+        }
+        for l in &s.layers {
+            if let Some(layer) = font.layers.get_mut(&l.name) {
+                layer.color = l.color.map(|c| {
+                    Color::new(f64::from_bits(c[0]), f64::from_bits(c[1]), f64::from_bits(c[2]), f64::from_bits(c[3]))
+                        .unwrap()
+                });
+                layer.lib = l.lib.clone();
+            }
+        }
+    }
+    (font, results)
+}
+
+/// what the containers REPORT: per layer its name, `len()`, and the names `iter()` yields
+pub fn reported(font: &Font) -> String {
+    font.layers
+        .iter()
+        .map(|l| {
+            format!(
+                "{}:{}:{}",
+                hexs(l.name().as_str()),
+                l.len(),
+                l.iter().map(|g| hexs(g.name().as_str())).collect::<Vec<_>>().join("+")
+            )
+        })
+        .collect::<Vec<_>>()
+        .join("|")
 }
 
 /// canonical description of a font value.  The parts this model does not look into (other font-info
@@ -1366,7 +1497,7 @@ pub fn options(s: &Spec) -> WriteOptions {
 
 pub fn observe(toks: &[&str], scratch: &Path) -> String {
     let spec = parse_spec(toks);
-    let font = match guarded(|| build(&spec)) {
+    let (font, hres) = match guarded(|| build_h(&spec)) {
         Ok(f) => f,
         Err(m) => return format!("build=panic:{}", hexs(&m)),
     };
@@ -1378,6 +1509,8 @@ pub fn observe(toks: &[&str], scratch: &Path) -> String {
     let mut out = vec![
         format!("pre={}", paths(&font)),
         format!("pt={}", point_stats(font.layers.iter().flat_map(|l| l.iter()))),
+        format!("rep={}", reported(&font)),
+        format!("hr={}", hres.join(";")),
     ];
     let save = match guarded(|| font.save_with_options(&dst, &opts)) {
         Ok(Ok(())) => "ok".to_string(),
@@ -1517,14 +1650,32 @@ fn dict_gen(r: &mut Rng, depth: usize) -> Dictionary {
     d
 }
 
-/// groups of names whose default file names coincide before the clash counter is applied
-pub const CLASHES: [&[&str]; 6] = [
+/// groups of names whose default file names coincide before the clash counter is applied (illegal characters
+/// become `_`, a capital gets `_` appended, the clash test lower-cases).  By case class of the letters they hold:
+/// non-ASCII capitals; TITLECASE letters (category Lt: neither upper- nor lowercase, yet changed by
+/// `to_lowercase`) without any capital; titlecase next to the lowercase form of the same letter; lowercase only;
+/// uppercase only; mixed
+pub const CLASHES: [&[&str]; 17] = [
     &["\u{c4}*", "\u{c4}?"],
     &[".\u{d6}rtchen", "_\u{d6}rtchen"],
     &["\u{c9}", "\u{e9}_"],
     &["A*", "A?", "a__"],
     &["\u{3a9}|x", "\u{3a9}\"x", "\u{3a9}<x"],
     &["\u{1e9e}", "\u{df}_"],
+    // titlecase, no capital anywhere
+    &["\u{1c5}_alt", "\u{1c5}:alt", "\u{1c5}*alt"],
+    &["\u{1cb}/sketch", "\u{1cb}_sketch"],
+    &["\u{1f88}?", "\u{1f88}_", "\u{1f88}|"],
+    &["x\u{1f2}<", "x\u{1f2}>"],
+    // titlecase against the lowercase letter it folds to, and against a capital
+    &["\u{1c5}", "\u{1c6}"],
+    &["\u{1c8}x", "\u{1c9}x", "\u{1c8}x:"],
+    &["\u{1c5}A*", "\u{1c5}A?", "\u{1c6}a__"],
+    // lowercase only, uppercase only, mixed
+    &["a*b", "a?b", "a_b"],
+    &["AB", "a_b_"],
+    &["Q*", "Q?", "Q|"],
+    &["aB*c", "aB?c", "ab_?c"],
 ];
 const GNAMES: [&str; 10] = ["a", "A", "B", "a_", ".notdef", "A_B.alt", "\u{e9}", "con", "space", "a b"];
 const KNAMES: [&str; 8] = ["A", "B", "public.kern1.O", "public.kern2.O", "a b", "\u{e9}", "V", "public.kern1.X"];
@@ -1643,11 +1794,15 @@ pub fn gen_spec(r: &mut Rng, flavour: usize) -> Spec {
     let nl = 1 + *r.pick(&[0usize, 0, 1, 2, 3, 4]);
     let lnames = ["background", "a", "A", "Layer 2", "\u{e9}", "con", "glyphs", "x.y"];
     let mut used = Vec::new();
+    // one font in five takes the names of its other layers from ONE group of clashing names, in a random order
+    let lgrp: Option<&[&str]> = if r.chance(1, 5) { Some(*r.pick(&CLASHES)) } else { None };
     for i in 0..nl {
         let name = if i == 0 {
             if r.chance(1, 3) { "fore".to_string() } else { "public.default".to_string() }
         } else {
-            let n = if r.chance(1, 6) {
+            let n = if let (Some(grp), true) = (lgrp, r.chance(3, 4)) {
+                r.pick(grp).to_string()
+            } else if r.chance(1, 6) {
                 // layer names whose directories coincide before the clash counter
                 let grp = *r.pick(&CLASHES);
                 grp[i % grp.len()].to_string()
@@ -1721,6 +1876,321 @@ pub fn gen_spec(r: &mut Rng, flavour: usize) -> Spec {
     s
 }
 
+// ------------------------------------------------------------------ build histories (successful and refused calls)
+
+/// names `Name::new` refuses: empty, C0 control, DEL, C1 control
+const BADNAMES: [&str; 6] = ["", "\u{1}", "a\nb", "x\u{7f}", "\u{85}y", "\t"];
+
+fn name_ok(s: &str) -> bool {
+    !s.is_empty() && !s.chars().any(|c| (c as u32) < 0x20 || (0x7f..=0x9f).contains(&(c as u32)))
+}
+
+/// the DOCUMENTED behaviour of the containers on names only (no file names): a refused call changes nothing
+#[derive(Clone)]
+pub struct Sim {
+    pub layers: Vec<(String, BTreeMap<String, String>)>,
+    pub data: Vec<String>,
+}
+
+impl Sim {
+    pub fn new(s: &Spec) -> Sim {
+        Sim { layers: vec![("public.default".to_string(), BTreeMap::new())], data: s.data.iter().map(|e| e.0.clone()).collect() }
+    }
+    fn pos(&self, n: &str) -> Option<usize> {
+        self.layers.iter().position(|l| l.0 == n)
+    }
+    pub fn apply(&mut self, op: &Op) -> String {
+        let e = |v: &str| format!("err:{}", v);
+        match op {
+            Op::NewLayer(n) => {
+                if n == "public.default" {
+                    e("ReservedName")
+                } else if self.pos(n).is_some() {
+                    e("Duplicate")
+                } else if !name_ok(n) {
+                    e("Invalid")
+                } else {
+                    self.layers.push((n.clone(), BTreeMap::new()));
+                    "ok".into()
+                }
+            }
+            Op::RenameLayer(a, n, ow) => {
+                if !*ow && self.pos(n).is_some() {
+                    e("Duplicate")
+                } else if self.pos(a).is_none() {
+                    e("Missing")
+                } else if n == "public.default" && self.layers[0].0 != *a {
+                    e("ReservedName")
+                } else if self.layers[0].0 == *n && self.layers[0].0 != *a {
+                    e("Duplicate")
+                } else if !name_ok(n) {
+                    e("Invalid")
+                } else {
+                    if *ow && a != n {
+                        if let Some(i) = self.pos(n) {
+                            self.layers.remove(i);
+                        }
+                    }
+                    let i = self.pos(a).unwrap();
+                    self.layers[i].0 = n.clone();
+                    "ok".into()
+                }
+            }
+            Op::RemoveLayer(n) => match self.pos(n) {
+                Some(i) if i > 0 => {
+                    self.layers.remove(i);
+                    "some".into()
+                }
+                _ => "none".into(),
+            },
+            Op::Insert(l, n, tok) => match self.pos(l) {
+                Some(i) => {
+                    self.layers[i].1.insert(n.clone(), tok.clone());
+                    "ok".into()
+                }
+                None => "nolayer".into(),
+            },
+            Op::RenameGlyph(l, a, n, ow) => match self.pos(l) {
+                Some(i) => {
+                    let g = &mut self.layers[i].1;
+                    if !*ow && g.contains_key(n) {
+                        e("Duplicate")
+                    } else if !g.contains_key(a) {
+                        e("Missing")
+                    } else if !name_ok(n) {
+                        e("Invalid")
+                    } else {
+                        let tok = g.remove(a).unwrap();
+                        g.insert(n.clone(), tok);
+                        "ok".into()
+                    }
+                }
+                None => "nolayer".into(),
+            },
+            Op::RemoveGlyph(l, n) => match self.pos(l) {
+                Some(i) => (if self.layers[i].1.remove(n).is_some() { "some" } else { "none" }).into(),
+                None => "nolayer".into(),
+            },
+            Op::Data(p, _) => {
+                if p.is_empty() {
+                    e("EmptyPath")
+                } else if p.starts_with('/') {
+                    e("PathIsAbsolute")
+                } else if self.data.iter().any(|k| p.starts_with(&format!("{}/", k)) || k.starts_with(&format!("{}/", p))) {
+                    e("DirUnderFile")
+                } else {
+                    self.data.push(p.clone());
+                    "ok".into()
+                }
+            }
+            Op::Image(p, b) => {
+                if p.is_empty() {
+                    e("EmptyPath")
+                } else if p.starts_with('/') {
+                    e("PathIsAbsolute")
+                } else if p.contains('/') {
+                    e("Subdir")
+                } else if !b.starts_with(b"\x89PNG\r\n\x1a\n") {
+                    e("InvalidImage")
+                } else {
+                    "ok".into()
+                }
+            }
+        }
+    }
+}
+
+fn step(sim: &mut Sim, h: &mut Vec<(Op, String)>, op: Op) {
+    let o = sim.apply(&op);
+    h.push((op, o));
+}
+
+/// one call that the documented behaviour REFUSES in the present state (nothing is emitted when three draws
+/// all happen to be acceptable calls)
+fn refused_op(r: &mut Rng, sim: &mut Sim, h: &mut Vec<(Op, String)>, prefer: Option<&str>) {
+    for _ in 0..3 {
+        let li = match prefer.and_then(|n| sim.pos(n)) {
+            Some(i) if r.chance(3, 4) => i,
+            _ => r.below(sim.layers.len()),
+        };
+        let lname = sim.layers[li].0.clone();
+        let gnames: Vec<String> = sim.layers[li].1.keys().cloned().collect();
+        let bad = r.pick(&BADNAMES).to_string();
+        let ow = r.chance(1, 2);
+        let other = sim.layers[r.below(sim.layers.len())].0.clone();
+        let op = match r.below(16) {
+            // rename_glyph: invalid new name (most often: the call mutates in several steps), duplicate, missing
+            0 | 1 | 2 | 3 if !gnames.is_empty() => Op::RenameGlyph(lname, r.pick(&gnames).clone(), bad, ow),
+            4 if !gnames.is_empty() => Op::RenameGlyph(lname, r.pick(&gnames).clone(), r.pick(&gnames).clone(), false),
+            5 => Op::RenameGlyph(lname, "no.such".into(), if ow { bad } else { "fresh".into() }, r.chance(1, 2)),
+            // rename_layer: invalid, duplicate, missing, reserved / onto the default layer
+            6 | 7 => Op::RenameLayer(lname, bad, ow),
+            8 => Op::RenameLayer(lname, other, false),
+            9 => Op::RenameLayer("no.such".into(), if ow { bad } else { "fresh".into() }, r.chance(1, 2)),
+            10 if li > 0 => {
+                Op::RenameLayer(lname, if ow { "public.default".into() } else { sim.layers[0].0.clone() }, true)
+            }
+            // new_layer: invalid, duplicate, reserved
+            11 => Op::NewLayer(bad),
+            12 => Op::NewLayer(if ow { other } else { "public.default".into() }),
+            // removals that find nothing (the default layer cannot be removed)
+            13 => {
+                if ow {
+                    Op::RemoveLayer(if r.chance(1, 2) { "no.such".into() } else { sim.layers[0].0.clone() })
+                } else {
+                    Op::RemoveGlyph(lname, "no.such".into())
+                }
+            }
+            // stores
+            14 => {
+                let p = match (r.below(3), sim.data.first()) {
+                    (0, _) => String::new(),
+                    (1, Some(k)) => format!("{}/below", k),
+                    _ => "/abs/x.bin".to_string(),
+                };
+                Op::Data(p, vec![1, 2, 3])
+            }
+            15 => {
+                let png = b"\x89PNG\r\n\x1a\n".to_vec();
+                match r.below(4) {
+                    0 => Op::Image(String::new(), png),
+                    1 => Op::Image("/abs.png".into(), png),
+                    2 => Op::Image("sub/x.png".into(), png),
+                    _ => Op::Image("notpng.png".into(), b"GIF89a".to_vec()),
+                }
+            }
+            _ => continue,
+        };
+        let o = sim.clone().apply(&op);
+        if !o.starts_with("err") && o != "none" {
+            continue;
+        }
+        step(sim, h, op);
+        return;
+    }
+}
+
+/// replaces the straight construction of the layers of `s` by a history of container calls that ends in the same
+/// layers: inserts in a random order, detours (temporary names + rename, overwriting insert / rename, remove and
+/// re-insert, a scratch layer that is removed again), and refused calls of every kind in between.  `s.layers` is
+/// then what the documented behaviour leaves (names in the order the containers iterate).
+pub fn gen_hist(r: &mut Rng, s: &mut Spec) {
+    let target = s.layers.clone();
+    let mut sim = Sim::new(s);
+    let mut h: Vec<(Op, String)> = Vec::new();
+    let dense = r.chance(1, 3);
+    let noise = |r: &mut Rng, sim: &mut Sim, h: &mut Vec<(Op, String)>, at: &str| {
+        if r.chance(if dense { 2 } else { 1 }, 3) {
+            refused_op(r, sim, h, Some(at));
+        }
+    };
+    let junk = |r: &mut Rng| format!("{}", 1 + r.next() % 1_000_000);
+    let scratch = r.chance(1, 4);
+    if scratch {
+        step(&mut sim, &mut h, Op::NewLayer("scratch".into()));
+        let t = junk(r);
+        step(&mut sim, &mut h, Op::Insert("scratch".into(), "a".into(), t));
+    }
+    let mut k = 0;
+    for (i, l) in target.iter().enumerate() {
+        let mut cur = "public.default".to_string();
+        let mut over = false;
+        if i == 0 {
+            if l.name != cur && r.chance(1, 2) {
+                step(&mut sim, &mut h, Op::RenameLayer(cur.clone(), l.name.clone(), r.chance(1, 2)));
+                cur = l.name.clone();
+            }
+        } else {
+            let tmp = format!("tmp{}", i);
+            match r.below(4) {
+                0 => {
+                    step(&mut sim, &mut h, Op::NewLayer(tmp.clone()));
+                    cur = tmp;
+                }
+                1 => {
+                    // a layer of the final name exists already and is replaced by the overwriting rename
+                    step(&mut sim, &mut h, Op::NewLayer(l.name.clone()));
+                    let t = junk(r);
+                    step(&mut sim, &mut h, Op::Insert(l.name.clone(), "junk".into(), t));
+                    step(&mut sim, &mut h, Op::NewLayer(tmp.clone()));
+                    cur = tmp;
+                    over = true;
+                }
+                _ => {
+                    step(&mut sim, &mut h, Op::NewLayer(l.name.clone()));
+                    cur = l.name.clone();
+                }
+            }
+        }
+        noise(r, &mut sim, &mut h, &cur);
+        let mut gl = l.glyphs.clone();
+        for a in (1..gl.len()).rev() {
+            let b = r.below(a + 1);
+            gl.swap(a, b);
+        }
+        for (n, tok) in gl {
+            k += 1;
+            let tmpg = format!("t.{}", k);
+            let ig = |n: &str, t: &str| Op::Insert(cur.clone(), n.to_string(), t.to_string());
+            match r.below(7) {
+                0 => {
+                    step(&mut sim, &mut h, ig(&tmpg, &tok));
+                    noise(r, &mut sim, &mut h, &cur);
+                    step(&mut sim, &mut h, Op::RenameGlyph(cur.clone(), tmpg, n.clone(), r.chance(1, 2)));
+                }
+                1 => {
+                    let t = junk(r);
+                    step(&mut sim, &mut h, ig(&n, &t));
+                    noise(r, &mut sim, &mut h, &cur);
+                    step(&mut sim, &mut h, ig(&n, &tok));
+                }
+                2 => {
+                    step(&mut sim, &mut h, ig(&n, &tok));
+                    step(&mut sim, &mut h, Op::RemoveGlyph(cur.clone(), n.clone()));
+                    noise(r, &mut sim, &mut h, &cur);
+                    step(&mut sim, &mut h, ig(&n, &tok));
+                }
+                3 => {
+                    let t = junk(r);
+                    step(&mut sim, &mut h, ig(&n, &t));
+                    step(&mut sim, &mut h, ig(&tmpg, &tok));
+                    noise(r, &mut sim, &mut h, &cur);
+                    step(&mut sim, &mut h, Op::RenameGlyph(cur.clone(), tmpg, n.clone(), true));
+                }
+                _ => step(&mut sim, &mut h, ig(&n, &tok)),
+            }
+            noise(r, &mut sim, &mut h, &cur);
+        }
+        if cur != l.name {
+            step(&mut sim, &mut h, Op::RenameLayer(cur.clone(), l.name.clone(), over || r.chance(1, 2)));
+        }
+        noise(r, &mut sim, &mut h, &l.name);
+    }
+    if scratch {
+        step(&mut sim, &mut h, Op::RemoveLayer("scratch".into()));
+    }
+    // the last call of a history is a refused one half of the time (nothing after it can repair the state)
+    if r.chance(1, 2) {
+        let at = sim.layers[r.below(sim.layers.len())].0.clone();
+        refused_op(r, &mut sim, &mut h, Some(&at));
+    }
+    // what the documented behaviour leaves
+    s.layers = sim
+        .layers
+        .iter()
+        .map(|(n, gs)| {
+            let t = target.iter().find(|t| t.name == *n);
+            LayerSpec {
+                name: n.clone(),
+                color: t.and_then(|t| t.color),
+                lib: t.map(|t| t.lib.clone()).unwrap_or_default(),
+                glyphs: gs.iter().map(|(a, b)| (a.clone(), b.clone())).collect(),
+            }
+        })
+        .collect();
+    s.hist = h;
+}
+
 fn emit(out: &mut dyn Write, scratch: &Path, s: &Spec) {
     let toks = input_tokens(s);
     let refs: Vec<&str> = toks.iter().map(|x| x.as_str()).collect();
@@ -1766,7 +2236,11 @@ pub fn gen(tier: &str, seed: u64, out: &mut dyn Write) {
     // part 2: random fonts
     let n = if tier == "thorough" { 30_000 } else { 1_500 };
     for i in 0..n {
-        let s = gen_spec(&mut rng, i % 40);
+        let mut s = gen_spec(&mut rng, i % 40);
+        // every second font is built through a history of container calls, refused ones included
+        if i % 2 == 1 {
+            gen_hist(&mut rng, &mut s);
+        }
         emit(out, &scratch, &s);
     }
     // part 3: fonts that start from a load: a foreign tree (non-default glif file names) is loaded, glyphs are
